@@ -74,6 +74,8 @@ func checkC14(c *Ctx) {
 		"same method set, same terminal handler function per method, ping results that encode to {}, identical handling of handler-produced *JSONRPCError, same decoder and error test per client operation."
 	c.R.NotDecided = "equality of answers for arbitrary registrations and inputs (needs execution); wording of error messages"
 	c.R.Assumptions = []string{"the shared managers are deterministic functions of (registrations, request)"}
+	c16Version(c)      // every server falls back to the same protocol version
+	c01FreshBuffer(c) // an answer handed to a waiting call is the same bytes on every client transport
 
 	// ---- the routes: every dispatch of request methods to handlers — a map literal from method names to functions, or
 	// a function comparing the request's method with string constants. The one serving most methods is the reference
